@@ -3,7 +3,7 @@
 PROP = {
     "thorough_scale": 4,
     "pkg": "internal/querylog",
-    "files": ["querylog/c07_model_test.go", "querylog/c07_machine_test.go", "querylog/c07_props_test.go", "querylog/c07_budget_test.go"],
+    "files": ["querylog/c07_model_test.go", "querylog/c07_machine_test.go", "querylog/c07_props_test.go", "querylog/c07_budget_test.go", "querylog/c07_longline_test.go"],
     "level": "exploration",
     "technique": "property-based testing (rapid): a state machine over record / flush / rotate / clear / settings "
                  "change / restart against a reference model of the retained entries; every read goes through the "
@@ -48,6 +48,7 @@ PROP = {
         ("TestVFC07Layout", (80, 400)),
         ("TestVFC07Params", (300, 2000)),
         ("TestVFC07StoredLine", (1500, 15000)),
+        ("TestVFC07RegressLongRecord", (40, 150), {"shards": (1, 4)}),
     ],
     "plain": ["TestVFC07RegressCursor", "TestVFC07RegressBounds", "TestVFC07RegressEscaped", "TestVFC07ScanBudget"],
     "shards": (4, 16),
